@@ -19,7 +19,7 @@ import (
 
 func init() {
 	register("C08",
-		"NONCE: cipherState.nonce is written only by the deferred closures of Encrypt/Decrypt (exactly +1, in a defer, hence on every exit) and by InitializeKey (=0, together with a new secretKey and cipher, so a nonce never restarts under the same key); AEAD Seal/Open are called only from Encrypt/Decrypt with a nonce buffer filled from cipherState.nonce; rotateKey derives the next key from an HKDF keyed by the old key and re-initialises with it. ROT-SIB: the deferred closures of Encrypt and Decrypt are structurally identical (same increment, same comparison against keyRotationInterval, same rotateKey call), so both ends rotate at the same record count. PAIR: WriteMessage encrypts exactly twice with sendCipher (2-byte header, body) and ReadHeader/ReadBody decrypt exactly once each with recvCipher; no other function uses the transport ciphers; encHeaderSize = lengthHeaderSize + macSize. TAINT-WIRE: everything written to a transport writer or to the handshake act buffer is an Encrypt/EncryptAndHash result, the cleartext version byte, or a public/masked ephemeral key; the pending-record slices only ever hold Encrypt results. Not decided: that ciphertexts differ (cryptographic), decryption 'to exactly what was written' as a property of streams (follows from ROT-SIB + PAIR + the AEAD).",
+		"NONCE: cipherState.nonce is written only by the deferred closures of Encrypt/Decrypt (exactly +1, in a defer, hence on every exit) and by InitializeKey (=0, together with a new secretKey and cipher, so a nonce never restarts under the same key); AEAD Seal/Open are called only from Encrypt/Decrypt with a nonce buffer filled from cipherState.nonce; rotateKey derives the next key from an HKDF keyed by the old key and re-initialises with it. ROT-SIB: the deferred closures of Encrypt and Decrypt are structurally identical (same increment, same comparison against keyRotationInterval, same rotateKey call), so both ends rotate at the same record count. PAIR: WriteMessage encrypts exactly twice with sendCipher (2-byte header, body) and ReadHeader/ReadBody decrypt exactly once each with recvCipher; no other function uses the transport ciphers; every Encrypt output of WriteMessage is stored into the pending record on every path to a return (a refused or failed write never consumes a nonce); encHeaderSize = lengthHeaderSize + macSize. TAINT-WIRE: everything written to a transport writer or to the handshake act buffer is an Encrypt/EncryptAndHash result, the cleartext version byte, or a public/masked ephemeral key; the pending-record slices only ever hold Encrypt results. Not decided: that ciphertexts differ (cryptographic), decryption 'to exactly what was written' as a property of streams (follows from ROT-SIB + PAIR + the AEAD).",
 		[]string{"ChaCha20-Poly1305 is a secure AEAD; HKDF-SHA256 is a PRF; binary.LittleEndian.PutUint64 writes its argument"},
 		runC08)
 	register("C02",
@@ -154,6 +154,45 @@ func runC08(c *Checker) {
 	for name, m := range map[string]map[*ssa.Function]int{"sendCipher.Decrypt": usesOf(dec, fSendC), "recvCipher.Encrypt": usesOf(enc, fRecvC)} {
 		c.decide(len(m) == 0, "PAIR", name+"|unused", wm.Pos(), "never used in the wrong direction", name+" is used: a cipher state advances in the wrong direction")
 	}
+	// every record encrypted by WriteMessage becomes the pending record: no exit after an
+	// Encrypt (which has advanced the nonce) that leaves its output unsent
+	{
+		fH, fB := w.Field("mailbox.Machine.nextHeaderSend"), w.Field("mailbox.Machine.nextBodySend")
+		if fH == nil || fB == nil {
+			c.anchorFail("mailbox.Machine.nextHeaderSend/nextBodySend")
+		} else {
+			n := 0
+			for _, ci := range findCalls(wm, func(ci ssa.CallInstruction) bool { return ci.Common().StaticCallee() == enc }) {
+				call, ok := ci.(*ssa.Call)
+				if !ok {
+					continue
+				}
+				n++
+				isStore := func(in ssa.Instruction) bool {
+					st, ok := in.(*ssa.Store)
+					if !ok {
+						return false
+					}
+					f := structFieldOf(st.Addr)
+					if f != fH && f != fB {
+						return false
+					}
+					for _, v := range expandValues(st.Val) {
+						if unwrapLoadAlloc(v) == ssa.Value(call) {
+							return true
+						}
+					}
+					return false
+				}
+				ret := pathToReturn(call, func(*ssa.Return) bool { return true }, isStore)
+				why := ""
+				if ret != nil {
+					why = "WriteMessage can return at " + w.pos(instrPos(ret)) + " after this Encrypt without queueing its output: the send nonce has advanced for a record the peer never sees, every later record fails to decrypt"
+				}
+				c.decide(ret == nil, "PAIR", fmt.Sprintf("WriteMessage|encrypt-%d output is queued on every exit", n), instrPos(call), "the ciphertext is stored into the pending record on every path to a return", why)
+			}
+		}
+	}
 	// constants
 	lh, ms, eh := w.Const("mailbox.lengthHeaderSize"), w.Const("mailbox.macSize"), w.Const("mailbox.encHeaderSize")
 	if lh == nil || ms == nil || eh == nil {
@@ -164,7 +203,7 @@ func runC08(c *Checker) {
 		e, _ := constant.Int64Val(eh.Val())
 		c.decide(e == l+m && l == 2 && m == 16, "PAIR", "const|encHeaderSize = lengthHeaderSize + macSize", token.NoPos, fmt.Sprintf("%d = %d + %d", e, l, m), fmt.Sprintf("header constants disagree: %d vs %d + %d", e, l, m))
 	}
-	c.floor("PAIR", 5)
+	c.floor("PAIR", 7)
 
 	// ---- TAINT-WIRE (machine level) ----
 	ruleTaintWire(c, "TAINT-WIRE")
